@@ -79,8 +79,10 @@ func Replay(id, path string) {
 			}
 		}
 		fmt.Printf("VIOLATION property=%s replay=%s\n", id, path)
+		os.RemoveAll(dir)
 		os.Exit(1)
 	}
 	fmt.Println("not reproduced on the current tree")
+	os.RemoveAll(dir)
 	os.Exit(0)
 }
